@@ -24,6 +24,9 @@
       numbers), run the body and increment (§11.3.1: `i++` on a number).  A run is a finite
       unfolding: `fuel` bounds the number of iterations, running out of it is `unspec`.
     * §11.2.1  `xs[i]` with `i` a number is the property ToString(i): the element, or `undefined`.
+    * a call of a TEMPLATE function `ns.t(data, opt_sb, opt_ijData)` is `G name data`: the callee's own run (the same
+      semantics one call level down, Props/C04d); soy.$$augmentMap(base, {k: v, …}) is read as the object whose
+      properties are looked up in the literal first, then in `base`.
     * a call of a library function (`soy.$$escapeHtml(x)`, `soy.$$truncate(x, 5, true)`, …) is
       UNINTERPRETED: `F name args` is what the function the generator writes for the directive
       `|name:args` computes from its first argument (strict: an error in the argument is the error).
@@ -37,6 +40,12 @@ import SoyVerif.Model.Ast
 namespace SoyVerif.Spec.JsStmt
 open SoyVerif SoyVerif.Spec.JsSemRef
 open SoyVerif.Model (Directive Expr)
+
+/-- the data argument of a call of a template function, before the parameters: `{}`, `opt_data`, an expression -/
+inductive DataBase where
+  | empty
+  | all
+  | expr (e : JsExpr)
 
 mutual
   inductive JsStmt where
@@ -62,6 +71,9 @@ mutual
     | forStep (i lim step idx : Bytes) (init : JsExpr) (body : JsStmts)
     /-- `switch (e) { case v: … break; … default: … break; }` -/
     | switchS (e : JsExpr) (cases : JsCases)
+    /-- `buf += callee(DATA, opt_sb, opt_ijData);` with DATA = the base, or `soy.$$augmentMap(base, {k: v, …})` when there
+        are parameters -/
+    | call (buf : Bytes) (callee : Bytes) (base : DataBase) (params : List (Bytes × JsExpr))
   inductive JsStmts where
     | nil
     | cons (s : JsStmt) (rest : JsStmts)
@@ -169,8 +181,24 @@ def indexVar (env : JEnv) (list idx : Bytes) : JOut :=
     | .num n => getIndex l n
     | _ => .unspec
 
+/-- the object a call passes, from the base object and the evaluated parameters: soy.$$augmentMap(base, extra) is an
+    object whose own properties are those of `extra` and whose prototype is `base` — a property is looked up in
+    `extra` first; in an object literal a later duplicate key wins (§11.1.5), so the later parameters come first -/
+def evalParams (env : JEnv) : List (Bytes × JsExpr) → List (Bytes × JVal) → JOut ⊕ List (Bytes × JVal)
+  | [], acc => .inr acc
+  | (k, e) :: r, acc =>
+    match eval env e with
+    | .val v => evalParams env r ((k, v) :: acc)
+    | o => .inl o
+
+def evalBase (env : JEnv) : DataBase → JOut
+  | .empty => .val (.obj [])
+  | .all => .val (.obj env.optData)
+  | .expr e => eval env e
+
 section
-variable (F : Bytes → List Expr → JVal → JOut) (fuel : Nat)
+-- `G name data`: what the template function `name` returns on the data object `data` (its own run: Props/C04d)
+variable (F : Bytes → List Expr → JVal → JOut) (G : Bytes → JVal → JOut) (fuel : Nat)
 
 /-- the library calls around a value, innermost first; strict -/
 def applyCalls (ds : List Directive) (o : JOut) : JOut :=
@@ -194,6 +222,12 @@ mutual
       withVal (eval env init) fun v =>
         execLoopStep (execStmts body) i lim step idx fuel (setLocal (setLocal env i v) idx (.num 0))
     | .switchS e cases, env => withVal (eval env e) fun v => execCases cases v env
+    | .call buf callee base params, env =>
+      withVal (evalBase env base) fun b =>
+        match b, evalParams env params [] with
+        | .obj bkvs, .inr extra => withVal (G callee (.obj (extra ++ bkvs))) fun r => appendTo env buf r
+        | .obj _, .inl .error => .error
+        | _, _ => .unspec           -- a base that is no object, an argument outside the subset
     | .ifPos lim body els, env =>
       withVal (eval env (.bin .gt (.local lim) (.num 0))) fun c =>
         if toBoolean c then execStmts body env else execStmts els env
